@@ -13,12 +13,15 @@ import (
 
 	"github.com/emersion/go-message/textproto"
 	"github.com/emersion/go-smtp"
+	"github.com/foxcpp/go-mockdns"
 	"github.com/foxcpp/maddy/framework/address"
 	"github.com/foxcpp/maddy/framework/buffer"
 	"github.com/foxcpp/maddy/framework/config"
 	"github.com/foxcpp/maddy/framework/exterrors"
 	"github.com/foxcpp/maddy/framework/module"
+	"github.com/foxcpp/maddy/internal/auth"
 	"github.com/foxcpp/maddy/internal/limits"
+	"github.com/foxcpp/maddy/internal/msgpipeline"
 	"github.com/foxcpp/maddy/internal/testutils"
 	"github.com/foxcpp/maddy/internal/verifshim/vh"
 	"github.com/foxcpp/maddy/internal/verifshim/vlim"
@@ -119,6 +122,51 @@ func (s *c11CheckState) Close() error {
 }
 
 var c11PortMu sync.Mutex
+
+// c11Endpoint builds an endpoint like the package's testEndpoint, but on a port of its own and
+// without t.Fatal: the port found free can be taken by a concurrent client socket before the
+// endpoint binds it, in which case another port is tried.
+func c11Endpoint(t *testing.T, tgt module.DeliveryTarget, chk module.Check, nodes []config.Node) (*Endpoint, string, error) {
+	c11PortMu.Lock()
+	defer c11PortMu.Unlock()
+	var lastErr error
+	for try := 0; try < 50; try++ {
+		l, err := net.Listen("tcp", "127.0.0.1:0")
+		if err != nil {
+			lastErr = err
+			continue
+		}
+		port := strconv.Itoa(l.Addr().(*net.TCPAddr).Port)
+		l.Close()
+		mod, err := New("smtp", []string{"tcp://127.0.0.1:" + port})
+		if err != nil {
+			return nil, "", err
+		}
+		endp := mod.(*Endpoint)
+		endp.resolver = &mockdns.Resolver{Zones: map[string]mockdns.Zone{
+			"mx.example.org.":         {A: []string{"127.0.0.1"}},
+			"1.0.0.127.in-addr.arpa.": {PTR: []string{"mx.example.org"}},
+		}}
+		endp.Log = testutils.Logger(t, "smtp")
+		cfg := append(append([]config.Node{}, nodes...),
+			config.Node{Name: "hostname", Args: []string{"mx.example.com"}},
+			config.Node{Name: "tls", Args: []string{"off"}},
+			config.Node{Name: "deliver_to", Args: []string{"dummy"}},
+		)
+		if err := endp.Init(config.NewMap(nil, config.Node{Children: cfg})); err != nil {
+			lastErr = err
+			continue
+		}
+		endp.saslAuth = auth.SASLAuth{Log: testutils.Logger(t, "smtp/saslauth"), Plain: []module.PlainAuth{nil}}
+		endp.pipeline = msgpipeline.Mock(tgt, []module.Check{chk})
+		endp.pipeline.Hostname = "mx.example.com"
+		endp.pipeline.Resolver = endp.resolver
+		endp.pipeline.FirstPipeline = true
+		endp.pipeline.Log = testutils.Logger(t, "smtp/pipeline")
+		return endp, port, nil
+	}
+	return nil, "", lastErr
+}
 
 type c11Client struct {
 	cl      *smtp.Client
@@ -335,17 +383,12 @@ func c11SessRun(out *vh.Out, t *testing.T, cfg vlim.Cfg, def bool, r *vh.Rng, fi
 	if !def {
 		nodes = append(nodes, config.Node{Name: "defer_sender_reject", Args: []string{"no"}})
 	}
-	c11PortMu.Lock()
-	l, err := net.Listen("tcp", "127.0.0.1:0")
+	endp, port, err := c11Endpoint(t, tgt, chk, nodes)
 	if err != nil {
-		c11PortMu.Unlock()
-		t.Fatal(err)
+		out.Stat("sess:endpoint-error")
+		out.Note("cannot start endpoint: " + err.Error())
+		return
 	}
-	port := strconv.Itoa(l.Addr().(*net.TCPAddr).Port)
-	l.Close()
-	testPort = port
-	endp := testEndpoint(t, "smtp", nil, tgt, []module.Check{chk}, nodes)
-	c11PortMu.Unlock()
 	defer endp.Close()
 	endp.limits = g
 	c := &c11SessCase{out: out, cfg: cfg, def: def, g: g, endp: endp, chk: chk, tgt: tgt, port: port, cls: map[int]*c11Client{}, maxSlow: 1}
@@ -555,17 +598,12 @@ func c11SessConcCase(out *vh.Out, t *testing.T, cfg vlim.Cfg, seed uint64, worke
 	if !def {
 		nodes = append(nodes, config.Node{Name: "defer_sender_reject", Args: []string{"no"}})
 	}
-	c11PortMu.Lock()
-	l, err := net.Listen("tcp", "127.0.0.1:0")
+	endp, port, err := c11Endpoint(t, tgt, chk, nodes)
 	if err != nil {
-		c11PortMu.Unlock()
+		out.Stat("sessconc:endpoint-error")
+		out.Note("cannot start endpoint: " + err.Error())
 		return
 	}
-	port := strconv.Itoa(l.Addr().(*net.TCPAddr).Port)
-	l.Close()
-	testPort = port
-	endp := testEndpoint(t, "smtp", nil, tgt, []module.Check{chk}, nodes)
-	c11PortMu.Unlock()
 	endp.limits = g
 	var wg sync.WaitGroup
 	var mailOK, mailLimit, ended [1]int64
